@@ -109,6 +109,10 @@ pub struct RetransEntry {
     msg_ctr: u32,
     // The retransmission counter
     counter: u16,
+    // The acknowledgement piggy-backed on the original transmission (if any).
+    // Retransmissions carry the very same one, so that they stay bit-for-bit
+    // identical to the original (same message counter, i.e. same nonce).
+    ack_msg_ctr: Option<u32>,
 }
 
 impl RetransEntry {
@@ -124,6 +128,7 @@ impl RetransEntry {
             base_delay_interval_ms,
             msg_ctr,
             counter: 0,
+            ack_msg_ctr: None,
         }
     }
 
@@ -262,8 +267,19 @@ impl ReliableMessage {
         // once we detect idle vs active devices
         _session_idle_interval_ms: Option<u32>,
     ) -> Result<(), Error> {
-        // Check if any acknowledgements are pending for this exchange,
-        if let Some(ack) = &mut self.ack {
+        let retransmission = tx_proto.is_reliable()
+            && self
+                .retrans
+                .as_ref()
+                .is_some_and(|retrans| retrans.msg_ctr == tx_plain.ctr);
+
+        if retransmission {
+            // A retransmission re-uses the message counter - and therefore the nonce - of the
+            // original, so it must encode the very same header: piggy back what the original did,
+            // even if another message to acknowledge has arrived in the meantime
+            tx_proto.set_ack(self.retrans.as_ref().and_then(|retrans| retrans.ack_msg_ctr));
+        } else if let Some(ack) = &mut self.ack {
+            // Check if any acknowledgements are pending for this exchange,
             // if so, piggy back in the encoded header here
             tx_proto.set_ack(Some(ack.get_msg_ctr()));
             ack.acknowledged = true;
@@ -287,7 +303,10 @@ impl ReliableMessage {
                     Err(ErrorCode::TxTimeout)?;
                 }
             } else {
-                self.retrans = Some(RetransEntry::new(session_active_interval_ms, tx_plain.ctr));
+                let mut retrans = RetransEntry::new(session_active_interval_ms, tx_plain.ctr);
+                retrans.ack_msg_ctr = tx_proto.get_ack();
+
+                self.retrans = Some(retrans);
             }
         }
 
